@@ -140,7 +140,7 @@ CLAIM = {
     "text": "Edge-dominance rule on the binder's CTE reference path: inlining is only sound under a volatility or single-reference guard. "
             "Whether a CTE is evaluated once is visible in this code shape for all queries; the correctness of subquery decorrelation is "
             "value-level plan rewriting and is not decided in general; one positional-agreement clause of it is (the index a decorrelated "
-            "aggregate adds to its grouping sets is the index its column map records). Plus the sharing discipline of materializations: filters above one MaterializationScan enter the shared plan only under a scan-count test, and once anything reads the scan count every path that builds a MaterializationScan increments it.",
+            "aggregate adds to its grouping sets is the index its column map records). Plus the sharing discipline of materializations: filters above one MaterializationScan enter the shared plan only under a scan-count test, and once anything reads the scan count every path that builds a MaterializationScan increments it. Plus: the functions that write the LeftMark join's verdict column can write NULL (IN over a subquery is three-valued) - two known findings.",
     "note": "trusted: rustc MIR; guard recognised by callee / field names matching volatile|ref_count|single_use (documented in rules/c09.py)",
     "technique": "static analysis: MIR edge-dominance guard rule (rustc_private driver)",
 }
